@@ -536,6 +536,11 @@ RETRY:
 		}
 		res := fullProof.MergeSparse(sparseProof)
 		allValidSignatures = allValidSignatures && res.AllValidSignatures
+		if !res.IncreasedSignatures {
+			// None of the incoming signatures for this block verified,
+			// so there is nothing to apply for it.
+			continue
+		}
 		voteUpdates[blockHash] = tmi.VoteUpdate{
 			Proof:       fullProof,
 			PrevVersion: curPrevoteState.PrevoteBlockVersions[blockHash],
@@ -543,6 +548,12 @@ RETRY:
 	}
 
 	if len(voteUpdates) == 0 {
+		if !allValidSignatures {
+			// Every signature we attempted to add was invalid:
+			// do not touch the view and do not report the message as accepted.
+			return tmconsensus.HandleVoteProofsBadSignature
+		}
+
 		// We must have been unable to build the sign bytes or signature proof.
 		// Ignore the message for now.
 		return tmconsensus.HandleVoteProofsNoNewSignatures
@@ -894,6 +905,11 @@ RETRY:
 		}
 		res := fullProof.MergeSparse(sparseProof)
 		allValidSignatures = allValidSignatures && res.AllValidSignatures
+		if !res.IncreasedSignatures {
+			// None of the incoming signatures for this block verified,
+			// so there is nothing to apply for it.
+			continue
+		}
 		voteUpdates[blockHash] = tmi.VoteUpdate{
 			Proof:       fullProof,
 			PrevVersion: curPrecommitState.PrecommitBlockVersions[blockHash],
@@ -901,6 +917,12 @@ RETRY:
 	}
 
 	if len(voteUpdates) == 0 {
+		if !allValidSignatures {
+			// Every signature we attempted to add was invalid:
+			// do not touch the view and do not report the message as accepted.
+			return tmconsensus.HandleVoteProofsBadSignature
+		}
+
 		// We must have been unable to build the sign bytes or signature proof.
 		// Ignore the message for now.
 		return tmconsensus.HandleVoteProofsNoNewSignatures
